@@ -4,6 +4,12 @@ import numpy as np
 import pymc as pm
 import pytensor.tensor as pt
 from astropy.utils.decorators import deprecated_renamed_argument
+from pytensor.graph.replace import vectorize_graph
+
+try:
+    from pytensor.graph.traversal import ancestors
+except ImportError:  # older pytensor
+    from pytensor.graph.basic import ancestors
 
 import thejoker.units as xu
 
@@ -365,7 +371,19 @@ class JokerPrior:
             logp = []
             for par in sub_pars.values():
                 try:
-                    _logp = pm.logp(par, raw_samples[par.name]).eval()
+                    # Evaluate the log-density of each parameter at its own samples,
+                    # substituting the sampled values of any other parameter its
+                    # distribution depends on (e.g. the K prior depends on P and e)
+                    value = par.type()
+                    _logp = pm.logp(par, value)
+                    replace = {value: pt.as_tensor_variable(raw_samples[par.name])}
+                    deps = set(ancestors([_logp]))
+                    for other in par_list:
+                        if other is not par and other in deps:
+                            replace[other] = pt.as_tensor_variable(
+                                raw_samples[other.name]
+                            )
+                    _logp = vectorize_graph(_logp, replace).eval()
                 except Exception:
                     logger.warning(
                         f"Cannot auto-compute log-prior value for parameter {par}"
